@@ -447,6 +447,15 @@ class CoreMixin:
         self._globals[key] = v
         return v
 
+    def eval_in_module(self, mod: ModInfo, expr) -> Node:
+        """value of an expression (AST) evaluated at module level of `mod`"""
+        saved = self._cur_fn
+        self._cur_fn = None
+        try:
+            return self.eval(expr, Frame(None, mod, {}, ()), self.module_state(mod))
+        finally:
+            self._cur_fn = saved
+
     def _global_value(self, mod: ModInfo, name, site) -> Node:
         if name in mod.defs:
             st = mod.defs[name]
